@@ -16,11 +16,11 @@ type orC08 struct {
 func (o *orC08) name() string { return "C08" }
 
 type lostClass struct {
-	notHA, single, disabled bool
-	isMaster                bool
+	notHA, single, disabled            bool
+	isMaster                           bool
 	live, needStrict, needLenient, nHA int
-	unreach                 bool
-	up                      bool
+	unreach                            bool
+	up                                 bool
 }
 
 func (o *orC08) classify(inc string) lostClass {
